@@ -1,11 +1,16 @@
 #!/bin/bash
-# usage: ./try_mutant.sh <patch.diff> <prop> [<prop>...]   - applies the patch to /repo, runs the quick checks, reverts
-P=$1; shift
-git -C /repo apply "$P" || { echo "patch does not apply"; exit 3; }
-trap 'git -C /repo checkout -- . ; git -C /repo clean -fdq' EXIT
-export VERIF_OUT=/tmp/mut_out; mkdir -p $VERIF_OUT
+# usage: ./try_mutant.sh <patch.diff> <prop> [<prop>...]
+# applies the patch to a scratch worktree of /repo (never to /repo itself), runs the checks against it with
+# their output in /tmp/mut_out (the evidence of the unchanged tree is not touched), removes the worktree.
+P=$(realpath "$1"); shift
+cd "$(dirname "$0")"
+W=/tmp/mut_wt_$$
+git -C /repo worktree add -q --detach $W HEAD || exit 3
+trap 'git -C /repo worktree remove --force $W >/dev/null 2>&1; rm -rf $W' EXIT
+git -C $W apply "$P" || { echo "patch does not apply"; exit 3; }
+export VERIF_REPO=$W VERIF_OUT=/tmp/mut_out; mkdir -p $VERIF_OUT
 for p in "$@"; do
-  s=$(date +%s); ./check $p ${TIER:-quick} > /tmp/mut_$p.log 2>&1; rc=$?; e=$(date +%s)
+  s=$(date +%s); ./check $p ${TIER:-quick} ${EXTRA} > /tmp/mut_$p.log 2>&1; rc=$?; e=$(date +%s)
   echo "$p rc=$rc $((e-s))s viol=$(grep -c '^VIOLATION' /tmp/mut_$p.log) incon=$(grep -c '^INCONCLUSIVE' /tmp/mut_$p.log)"
   grep '^VIOLATION\|^INCONCLUSIVE\|^SPURIOUS' /tmp/mut_$p.log | sed 's/replay=[^ ]* *//' | cut -c1-260 | head -4
 done
